@@ -53,16 +53,18 @@ pub struct Sched {
     pub len: usize,
     /// offset of the first configuration read (which field the driver's closure reads first)
     pub first_cfg_off: Option<usize>,
+    /// storm mode: the configurations are cycled through for ever (index `applied mod n`)
+    pub cyclic: bool,
 }
 
 impl Sched {
     pub fn single(cfg: Vec<u8>, len: usize) -> Self {
-        Sched { tick: 0, at: vec![], cfgs: vec![cfg], cur: 0, applied: 0, gen0: 0, m: 1 << 32, len, first_cfg_off: None }
+        Sched { tick: 0, at: vec![], cfgs: vec![cfg], cur: 0, applied: 0, gen0: 0, m: 1 << 32, len, first_cfg_off: None, cyclic: false }
     }
     pub fn before_read(&mut self) {
         let n = self.at.iter().filter(|p| **p <= self.tick).count();
         self.applied = n;
-        self.cur = n.min(self.cfgs.len() - 1);
+        self.cur = if self.cyclic { n % self.cfgs.len() } else { n.min(self.cfgs.len() - 1) };
         self.tick += 1;
     }
     pub fn generation(&self) -> u64 {
@@ -298,7 +300,10 @@ impl PciFn {
         w[0x50 / 4 + 4] = 4;
         cap(&mut w, 0x68, if cfg_cap.is_some() { 0x78 } else { 0 }, 16, 3, 0x2000, 4);
         if let Some((off, len)) = cfg_cap {
-            cap(&mut w, 0x78, 0, 16, 4, off, len);
+            cap(&mut w, 0x78, 0x88, 16, 4, off, len);
+            // a second, larger device-configuration capability further down the list: the specification
+            // lets a device offer several and has the driver use the first; the window stays the first one
+            cap(&mut w, 0x88, 0, 16, 4, 0x4000, 160);
         }
         PciFn { words: Rc::new(RefCell::new(w)) }
     }
@@ -869,10 +874,14 @@ struct RunOut {
 
 /// One driver run under one schedule on one transport.
 fn run_one(d: Drv, tk: Tk, len: usize, at: &[usize], gen0: u64) -> RunOut {
+    run_one_c(d, tk, len, at, gen0, false)
+}
+
+fn run_one_c(d: Drv, tk: Tk, len: usize, at: &[usize], gen0: u64, cyclic: bool) -> RunOut {
     hal::reset();
     mmio::reset();
     mmio::with(|b| b.budget = 200_000);
-    let sched = Sched { tick: 0, at: at.to_vec(), cfgs: d.configs(len), cur: 0, applied: 0, gen0, m: tk.modulus(), len, first_cfg_off: None };
+    let sched = Sched { tick: 0, at: at.to_vec(), cfgs: d.configs(len), cur: 0, applied: 0, gen0, m: tk.modulus(), len, first_cfg_off: None, cyclic };
     match tk {
         Tk::Model => {
             let sched = Rc::new(RefCell::new(sched));
@@ -984,10 +993,17 @@ pub fn consistent_case(ctx: &Ctx, idx: usize, id: String) -> Case {
     }
     let cfgs = d.configs(len);
     let cfg_args: String = cfgs.iter().enumerate().map(|(i, cfg)| format!(" cfg{}={}", i, if len == 0 { "-".to_string() } else { cfg[..len].iter().map(|b| b.to_string()).collect::<Vec<_>>().join(",") })).collect();
-    for at in schedules {
-        let out = run_one(d, tk, len, &at, gen0);
+    // storms: an update before each of the first k reads, the configurations cycling — many successive
+    // attempts are interrupted (there is no number of retries after which an unvalidated read may be returned)
+    let storms: Vec<usize> = [17 * (n0 + 1), 41 * (n0 + 1)].iter().map(|k| (*k).min(200)).collect();
+    let mut plans: Vec<(Vec<usize>, usize)> = schedules.into_iter().map(|a| (a, 0usize)).collect();
+    for k in storms {
+        plans.push(((0..k).collect(), k));
+    }
+    for (at, storm) in plans {
+        let out = run_one_c(d, tk, len, &at, gen0, storm > 0);
         let op = format!(
-            "config consistent prog={} gran={} kind={} present=1 len={} base=0 extra={} m={:#x} gen0={:#x} ncfg=3{} at={} drv={} on={}{}",
+            "config consistent prog={} gran={} kind={} present=1 len={} base=0 extra={} m={:#x} gen0={:#x} ncfg=3{} at={} drv={} on={}{}{}",
             d.prog(),
             gran,
             if tk == Tk::Pci { "pci" } else { "mmio" },
@@ -996,10 +1012,11 @@ pub fn consistent_case(ctx: &Ctx, idx: usize, id: String) -> Case {
             m,
             gen0,
             cfg_args,
-            if at.is_empty() { "-".to_string() } else { at.iter().map(|p| p.to_string()).collect::<Vec<_>>().join(",") },
+            if at.is_empty() || storm > 0 { "-".to_string() } else { at.iter().map(|p| p.to_string()).collect::<Vec<_>>().join(",") },
             d.name(),
             tk.name(),
-            if swap { " swap=1" } else { "" }
+            if swap { " swap=1" } else { "" },
+            if storm > 0 { format!(" storm={} cyc=1", storm) } else { String::new() }
         );
         let impl_out = match &out.result {
             Ok(v) => format!("ok {:#x} ticks={}", v, out.ticks),
@@ -1011,7 +1028,7 @@ pub fn consistent_case(ctx: &Ctx, idx: usize, id: String) -> Case {
         }
         // configurations the device had exposed by the time the driver returned, and the value the
         // specification's layout assigns to each (None: that configuration does not fit the window)
-        let upto = out.applied.min(cfgs.len() - 1);
+        let upto = if storm > 0 { cfgs.len() - 1 } else { out.applied.min(cfgs.len() - 1) };
         let exposed: Vec<Option<u128>> = (0..=upto).map(|k| if need_of(d, &cfgs[k]) <= len { d.decode(&cfgs[k]) } else { None }).collect();
         match &out.result {
             Ok(v) => {
